@@ -5,14 +5,14 @@ cd /verif
 ids=${@:-$(ls seeded)}
 one() {
   id=$1
-  out=$(tools/mut.sh seeded/$id/patch.diff $id 2>&1)
+  out=$(tools/mut.sh seeded/$id/patch.diff ${id%%_*} 2>&1)   # seeded/C17_2 is a second seed for C17
   /venv/bin/python - "$id" "$out" <<'PY'
 import json,sys,re,datetime
 id,out=sys.argv[1:3]
 p=f'/verif/seeded/{id}/meta.json'; m=json.load(open(p))
 sigs=re.findall(r'VIOLATION property=\S+ replay=\S+\s+# (.*?) \(\d+ case', out)
 m['final_run']={'detected': ('exit=1' in out and 'VIOLATION' in out), 'exit': (re.findall(r'exit=(\d+)', out) or ['?'])[0], 'signatures': sigs[:6],
-                'date': datetime.date.today().isoformat(), 'command': f'tools/mut.sh seeded/{id}/patch.diff {id}'}
+                'date': datetime.date.today().isoformat(), 'command': f'tools/mut.sh seeded/{id}/patch.diff {id.split("_")[0]}'}
 json.dump(m,open(p,'w'),indent=1)
 print(id, m['final_run']['detected'], m['final_run']['exit'], sigs[:2])
 PY
